@@ -224,3 +224,106 @@ def random_tree(rnd, depth, names=("x", "y"), consts=None, ks=(1, 2, 3, 4, 5, 6)
 def random_trees(seed, n, depth=3, **kw):
     rnd = random.Random(seed)
     return [random_tree(rnd, depth, **kw) for _ in range(n)]
+
+
+# ---------------------------------------------------------------- rule universe (C08 / C11)
+def holes():
+    c = C
+    return [X, Y, Un("Negation", X), Un("Reciprocal", X), c[2], Add(X, Y), Mul(X, Y), KUn("NthPower", X, 2), KUn("NthRoot", X, 2),
+            KUn("NthRoot", X, 3), BUn("Exponential", X, q(2)), BUn("Logarithm", X, q(2)), Un("Sine", X), Bin("Power", X, Y)]
+
+
+def rule_patterns(tier="quick"):
+    """every rewrite rule's left-hand pattern with the holes filled, every parameter combination"""
+    Hs = holes()
+    h0 = Hs if tier == "thorough" else Hs[:8] + [Hs[10], Hs[11]]
+    h1 = Hs[:4] + [Hs[7], Hs[8], Hs[10]]          # a smaller set for second/third holes
+    c = C
+    out = []
+    P = out.append
+    N = range(1, 7)
+    for a in h0:
+        for b in h1:
+            # Add
+            P(Add(Add(a, b), Y)); P(Add(a, Add(b), X)); P(Add(a, Add()))
+            P(Add(c[0], a)); P(Add(a, c[0], b)); P(Add(c[1], a, c[2])); P(Add(a, c[H], b, c[-1]))
+            for b1, b2 in ((q(2), q(2)), (E_, E_), (q(2), q(3)), (q(1, 2), q(1, 2))):
+                P(Add(BUn("Logarithm", a, b1), BUn("Logarithm", b, b2)))
+                P(Add(BUn("Logarithm", a, b1), Y, BUn("Logarithm", b, b2), BUn("Logarithm", X, q(3))))
+            # Multiply
+            P(Mul(Mul(a, b), Y)); P(Mul(a, Mul(b), X)); P(Mul(a, Mul()))
+            P(Mul(c[0], a)); P(Mul(a, b, c[0])); P(Mul(c[1], a)); P(Mul(a, c[1], b)); P(Mul(c[2], a, c[H])); P(Mul(a, c[-1], b, c[-1]))
+            P(Mul(Un("Negation", a), b)); P(Mul(Un("Negation", a), Un("Negation", b))); P(Mul(Un("Negation", a), Y, Un("Negation", b), Un("Negation", X)))
+            P(Mul(Un("Negation", a), Un("Negation", b), Un("Negation", Y), Un("Negation", X)))
+            for n in (1, 2, 3, 4):
+                for m in (2, 3, 4) if tier == "quick" else (1, 2, 3, 4):
+                    P(Mul(KUn("NthPower", a, n), KUn("NthPower", b, m)))
+                    P(Mul(KUn("NthRoot", a, n), KUn("NthRoot", b, m)))
+            P(Mul(KUn("NthPower", a, 2), Y, KUn("NthPower", b, 2), KUn("NthPower", X, 3)))
+            P(Mul(KUn("NthRoot", a, 2), KUn("NthRoot", X, 3), KUn("NthRoot", b, 2)))
+            for b1, b2 in ((q(2), q(2)), (E_, E_), (q(2), q(3)), (q(1), q(1))):
+                P(Mul(BUn("Exponential", a, b1), BUn("Exponential", b, b2)))
+            P(Mul(BUn("Exponential", a, q(2)), Y, BUn("Exponential", b, q(3)), BUn("Exponential", X, q(2))))
+            P(Mul(Un("Reciprocal", a), b)); P(Mul(Un("Reciprocal", a), Un("Reciprocal", b)))
+            # binary
+            P(Bin("Minus", a, b)); P(Bin("Divide", a, b))
+            P(Un("Negation", Add(a, b))); P(Un("Reciprocal", Mul(a, b)))
+            P(Bin("Power", Bin("Power", a, b), Y)); P(Bin("Power", a, Un("Negation", b))); P(Bin("Power", Un("Reciprocal", a), b))
+            for cc in (c[2], c[H], c[3]):
+                P(Bin("Power", cc, a))
+        # unary patterns with one hole
+        P(Un("Negation", Un("Negation", a))); P(Un("Reciprocal", Un("Reciprocal", a))); P(Un("Reciprocal", Un("Negation", a)))
+        P(Bin("Power", a, c[1])); P(Bin("Power", a, c[0])); P(Bin("Power", c[1], a)); P(Bin("Power", a, c[2])); P(Bin("Power", a, c[3]))
+        P(Bin("Power", a, c[-1])); P(Bin("Power", a, c[H])); P(Bin("Power", c[0], a)); P(Bin("Power", c[-1], a)); P(Bin("Power", a, c[-2]))
+        P(Bin("Power", a, ConstV({"k": "q", "n": 2, "d": 1, "py": "float"})))
+        for n in N:
+            P(KUn("NthPower", a, n)) if n == 1 else None
+            P(KUn("NthRoot", a, n)) if n == 1 else None
+            P(KUn("NthPower", Un("Negation", a), n)); P(KUn("NthPower", Un("Reciprocal", a), n))
+            P(KUn("NthRoot", Un("Negation", a), n)); P(KUn("NthRoot", Un("Reciprocal", a), n))
+            P(BUn("Logarithm", KUn("NthPower", a, n), q(2)))
+            for b in (E_, q(2), q(1, 2)):
+                P(KUn("NthPower", BUn("Exponential", a, b), n)) if n <= 3 else None
+            for m in N:
+                P(KUn("NthPower", KUn("NthRoot", a, m), n))
+                P(KUn("NthRoot", KUn("NthPower", a, m), n))
+                if n <= 3 and m <= 3:
+                    P(KUn("NthPower", KUn("NthPower", a, m), n))
+                    P(KUn("NthRoot", KUn("NthRoot", a, m), n))
+        for b1 in (E_, q(2), q(1, 2), q(10)):
+            for b2 in (E_, q(2), q(10)):
+                P(BUn("Exponential", BUn("Logarithm", a, b1), b2))
+                P(BUn("Logarithm", BUn("Exponential", a, b1), b2))
+            P(BUn("Exponential", Un("Negation", a), b1))
+            P(BUn("Logarithm", Un("Reciprocal", a), b1))
+        P(Un("Cosine", Un("Negation", a))); P(Un("Sine", Un("Negation", a)))
+    return dedup([t for t in out if t is not None])
+
+
+def wrappers():
+    return [lambda t: Un("Negation", t), lambda t: Un("Reciprocal", t), lambda t: KUn("NthPower", t, 2), lambda t: KUn("NthPower", t, 3),
+            lambda t: KUn("NthRoot", t, 2), lambda t: KUn("NthRoot", t, 3), lambda t: BUn("Exponential", t, q(2)), lambda t: BUn("Logarithm", t, q(2)),
+            lambda t: Un("Sine", t), lambda t: Un("Cosine", t), lambda t: Add(t, Y), lambda t: Mul(t, Y), lambda t: Mul(C[2], t, Un("Reciprocal", Y)),
+            lambda t: Bin("Minus", Y, t), lambda t: Bin("Divide", Y, t), lambda t: Bin("Power", t, Y), lambda t: Bin("Power", Y, t), lambda t: Bin("Power", t, C[2]),
+            lambda t: Add(t, t), lambda t: Mul(t, Un("Negation", t)), lambda t: BUn("Exponential", t, E_), lambda t: BUn("Logarithm", t, E_)]
+
+
+def chains(nmax=20):
+    """long nested chains (measured worst cases of the step count)"""
+    out = []
+    for n in range(2, nmax + 1):
+        for mk in (lambda t: Bin("Minus", Y, t), lambda t: Un("Reciprocal", Bin("Divide", Y, t)), lambda t: Un("Negation", Add(t, X)),
+                   lambda t: Bin("Divide", t, X), lambda t: Mul(X, t), lambda t: KUn("NthPower", Un("Negation", t), 3), lambda t: Bin("Power", t, C[2]),
+                   lambda t: Un("Sine", Un("Negation", t)), lambda t: Add(C[1], t, C[1])):
+            t = X
+            for _ in range(n):
+                t = mk(t)
+            if size(t) <= 3 * nmax + 5:
+                out.append(t)
+    return out
+
+
+def constant_trees(seed, n):
+    """variable-free trees (constant folding, also folding that fails)"""
+    return random_trees(seed, n, depth=3, names=("x",), consts=[-2, -1, 0, 1, 2, 3, H]) and \
+        [t for t in random_trees(seed, n * 6, depth=3, names=("x",)) if not variables(t)][:n]
